@@ -68,6 +68,29 @@ fn main() {
         }
         return;
     }
+    if id == "recgen" {
+        use proptest::strategy::{Strategy, ValueTree};
+        vcheck::compile::install_panic_hook();
+        let n: usize = args[2].parse().unwrap();
+        let mut runner = proptest::test_runner::TestRunner::deterministic();
+        let (mut ok, mut conflicts, mut err, mut panic) = (0, 0, 0, 0);
+        let mut seen = std::collections::BTreeSet::new();
+        for _ in 0..n {
+            let tape = vcheck::gen::g_rec().new_tree(&mut runner).unwrap().current();
+            let spec = vcheck::gen::build_rec(&tape);
+            let text = spec.render();
+            let fresh = seen.insert(text.split("terminals").next().unwrap_or("").to_string());
+            match vcheck::compile::compile(&text, &vcheck::compile::Cfg::lr()) {
+                Ok(d) => {
+                    if vcheck::compile::has_conflicts(&d) { conflicts += 1; if fresh { eprintln!("CONFLICTS\n{}\n-----", text.split("terminals").next().unwrap_or("")); } } else { ok += 1; }
+                }
+                Err(vcheck::compile::CompileErr::Err(e)) => { err += 1; if err < 3 { eprintln!("ERR {e}\n{text}"); } }
+                Err(vcheck::compile::CompileErr::Panic(p)) => { panic += 1; if panic < 3 { eprintln!("PANIC {p:?}\n{text}"); } }
+            }
+        }
+        eprintln!("ok {ok} conflicts {conflicts} err {err} panic {panic} distinct {}", seen.len());
+        return;
+    }
     if id == "astgen" {
         use proptest::strategy::{Strategy, ValueTree};
         vcheck::compile::install_panic_hook();
